@@ -19,3 +19,27 @@ def unit_field_class_structure():
                           detail="concrete=%d missing=%r" % (len(concrete), missing), replay=None if not missing else {"verdict": "confirmed", "input": "cutplace/fields.py", "expected": "validated_value defined", "observed": missing}))
         return res
     return NativeUnit("fields.class-structure", "class structure obligations for dynamic dispatch in AbstractFieldFormat.validated", ["C03", "C20", "C02"], run, kind="struct")
+
+
+MODULES = ["errors", "ranges", "fields", "checks", "data", "interface", "validio", "rowio", "applications", "sql", "_tools", "_compat"]
+
+
+def unit_no_hidden_state():
+    """what a per-call contract cannot see: wrappers around functions (caches) and module- / class-level containers mutated in place.
+    On the unchanged tree there are none; if a change introduces one, the contracts no longer describe the code that runs, which is
+    reported as undecided (never as held), and the bounded history checks decide whether behaviour actually changed."""
+    def run(ctx):
+        wrapped = []; shared = []
+        for m in MODULES:
+            mod = S.module(m)
+            for n in ast.walk(mod.tree):
+                if isinstance(n, ast.FunctionDef):
+                    fd = S.foreign_decorators(n)
+                    if fd: wrapped.append("%s.%s (@%s)" % (m, n.name, ", @".join(fd)))
+            shared += ["%s.%s" % (m, x) for x in sorted(S.shared_mutable_names(mod))]
+        res = [Result("struct/no-function-is-wrapped-by-a-caching-or-other-decorator", "struct", PASSED if not wrapped else UNDECIDED, "ast", function="cutplace.*",
+                      detail="wrapped functions: %s: calls to them no longer run the body the contracts were generated from (state kept by the wrapper is invisible to a per-call contract)" % wrapped if wrapped else ""),
+               Result("struct/no-module-or-class-level-container-is-mutated-in-place", "struct", PASSED if not shared else UNDECIDED, "ast", function="cutplace.*",
+                      detail="shared mutable containers: %s: their content depends on earlier calls" % shared if shared else "")]
+        return res
+    return NativeUnit("structure.no-hidden-state", "no wrapper (cache) around any function and no module- / class-level container mutated in place: per-call contracts see all the state there is", ["C08", "C19", "C20"], run, kind="struct")
